@@ -1,4 +1,4 @@
-(* C06: [node_all] and [height] (Spec/Safety.v) along [subnodes] (Proofs/InterpSub.v):
+(* C06: [node_all] and [tree_height] (Spec/Safety.v) along [subnodes] (Proofs/InterpSub.v):
    a predicate that holds of every node of a tree holds of every node the walker
    passes on, and those nodes are strictly lower. *)
 From Coq Require Import Lia ZifyN ZifyBool ZifyNat.
@@ -93,28 +93,28 @@ End All.
 (* ------------------------------------------------------------------ *)
 (* heights *)
 
-Lemma hmax_in x l : In x l -> (height x <= hmax l)%nat.
-Proof. apply (fold_max_le height). Qed.
+Lemma hmax_in x l : In x l -> (tree_height x <= hmax l)%nat.
+Proof. apply (fold_max_le tree_height). Qed.
 
-Lemma height_opt o x : In x (opt_list o) -> (height x <= match o with Some y => height y | None => 0 end)%nat.
+Lemma height_opt o x : In x (opt_list o) -> (tree_height x <= match o with Some y => tree_height y | None => 0 end)%nat.
 Proof. destruct o; cbn; [intros [<-|[]]; lia | intros []]. Qed.
 
-Lemma height_msg p i m d b : height (NMsg p i m d b) = S (hmax b).
+Lemma height_msg p i m d b : tree_height (NMsg p i m d b) = S (hmax b).
 Proof. reflexivity. Qed.
 
-Theorem height_sub n n' : In n' (subnodes n) -> (height n' < height n)%nat.
+Theorem height_sub n n' : In n' (subnodes n) -> (tree_height n' < tree_height n)%nat.
 Proof.
   intros Hin.
-  destruct n; cbn [subnodes] in Hin; try contradiction; cbn [height]; fold (hmax).
+  destruct n; cbn [subnodes] in Hin; try contradiction; cbn [tree_height]; fold (hmax).
   - (* NFunc *) pose proof (hmax_in _ _ Hin). unfold hmax in *. lia.
   - (* NListLit *) pose proof (hmax_in _ _ Hin). unfold hmax in *. lia.
   - (* NMapLit *)
     apply in_map_iff in Hin as ([k e] & <- & Hin).
-    pose proof (fold_max_le (fun kv : bstr * node => height (snd kv)) _ _ Hin). cbn [snd] in *. lia.
+    pose proof (fold_max_le (fun kv : bstr * node => tree_height (snd kv)) _ _ Hin). cbn [snd] in *. lia.
   - (* NDataRef *)
     apply in_flat_map in Hin as (a & Ha & Hin). pose proof (hmax_in _ _ Ha) as Hle.
     destruct a; cbn [acc_subs] in Hin; try contradiction. destruct Hin as [<-|[]].
-    cbn [height] in Hle. unfold hmax in *. lia.
+    cbn [tree_height] in Hle. unfold hmax in *. lia.
   - destruct Hin as [<-|[]]. lia.
   - destruct Hin as [<-|[]]. lia.
   - destruct Hin as [<-|[<-|[]]]; lia.
@@ -124,38 +124,38 @@ Proof.
     destruct Hin as [<-|Hin]; [lia|].
     apply in_flat_map in Hin as (d & Hd & Hin). pose proof (hmax_in _ _ Hd) as Hle.
     destruct d; cbn [dir_subs] in Hin; try contradiction.
-    pose proof (hmax_in _ _ Hin). cbn [height] in Hle. unfold hmax in *. lia.
+    pose proof (hmax_in _ _ Hin). cbn [tree_height] in Hle. unfold hmax in *. lia.
   - (* NCss *) pose proof (height_opt _ _ Hin). lia.
   - destruct Hin as [<-|[]]. lia.
   - (* NIf *)
     apply in_flat_map in Hin as (c & Hc & Hin). pose proof (hmax_in _ _ Hc) as Hle.
-    destruct c; cbn [cond_subs] in Hin; try contradiction. cbn [height] in Hle.
+    destruct c; cbn [cond_subs] in Hin; try contradiction. cbn [tree_height] in Hle.
     apply in_app_or in Hin as [Hin|[<-|[]]]; [pose proof (height_opt _ _ Hin)|]; unfold hmax in *; lia.
   - (* NFor *)
     destruct Hin as [<-|[<-|Hin]]; try lia. pose proof (height_opt _ _ Hin). lia.
   - (* NSwitch *)
     destruct Hin as [<-|Hin]; [lia|].
     apply in_flat_map in Hin as (c & Hc & Hin). pose proof (hmax_in _ _ Hc) as Hle.
-    destruct c; cbn [case_subs] in Hin; try contradiction. cbn [height] in Hle.
+    destruct c; cbn [case_subs] in Hin; try contradiction. cbn [tree_height] in Hle.
     apply in_app_or in Hin as [Hin|[<-|[]]]; [pose proof (hmax_in _ _ Hin)|]; unfold hmax in *; lia.
   - (* NCall *)
     apply in_app_or in Hin as [Hin|Hin]; [pose proof (height_opt _ _ Hin); lia|].
     apply in_flat_map in Hin as (q & Hq & Hin). pose proof (hmax_in _ _ Hq) as Hle.
     destruct q; cbn [param_subs] in Hin; try contradiction; destruct Hin as [<-|[]];
-      cbn [height] in Hle; unfold hmax in *; lia.
+      cbn [tree_height] in Hle; unfold hmax in *; lia.
   - destruct Hin as [<-|[]]. lia.
   - destruct Hin as [<-|[]]. lia.
   - (* NMsg *)
     apply in_flat_map in Hin as (x & Hx & Hin). pose proof (hmax_in _ _ Hx) as Hle.
     destruct x; cbn [msg_subs] in Hin; try contradiction.
     + destruct Hin as [<-|[]]. unfold hmax in *. lia.
-    + destruct Hin as [<-|[]]. cbn [height] in Hle. unfold hmax in *. lia.
-    + cbn [height] in Hle.
+    + destruct Hin as [<-|[]]. cbn [tree_height] in Hle. unfold hmax in *. lia.
+    + cbn [tree_height] in Hle.
       destruct Hin as [<-|[<-|Hin]].
       * unfold hmax in *. lia.
       * rewrite height_msg. unfold hmax in *. lia.
       * apply in_flat_map in Hin as (c & Hc & Hin). pose proof (hmax_in _ _ Hc) as Hlc.
         destruct c; cbn [plural_case_subs] in Hin; try contradiction. destruct Hin as [<-|[]].
-        rewrite height_msg. cbn [height] in Hlc. unfold hmax in *. lia.
+        rewrite height_msg. cbn [tree_height] in Hlc. unfold hmax in *. lia.
   - destruct Hin as [<-|[]]. lia.
 Qed.
